@@ -24,6 +24,7 @@ pub const PAGED_OID: &str = "1.2.840.113556.1.4.319";
 pub const CALLER_CTL_OID: &str = "1.1.1";
 pub const ITEM_CTL_OID: &str = "1.2.3.5";
 pub const RES_CTL_OID: &str = "1.2.3.4";
+pub const EXTRA_CTL_OID: &str = "1.2.3.6";
 
 type Stream = SearchStream<'static, String, Vec<String>>;
 
@@ -44,6 +45,36 @@ impl Adapter<'static, String, Vec<String>> for FailAfter {
         }
         self.left -= 1;
         stream.next().await
+    }
+    async fn finish(&mut self, stream: &mut Stream) -> LdapResult {
+        stream.finish().await
+    }
+}
+
+/// A user-defined adapter (public `Adapter` trait): passes everything through; when the call up
+/// the chain fails it looks at the stream's state and calls next() on it once more (the trait's
+/// documentation allows several calls up the chain per call), and reports both in its error.
+#[derive(Clone, Debug)]
+pub struct Probe;
+
+#[async_trait::async_trait]
+impl Adapter<'static, String, Vec<String>> for Probe {
+    async fn start(&mut self, stream: &mut Stream, base: &str, scope: Scope, filter: &str, attrs: Vec<String>) -> ldap3::result::Result<()> {
+        stream.start(base, scope, filter, attrs).await
+    }
+    async fn next(&mut self, stream: &mut Stream) -> ldap3::result::Result<Option<ResultEntry>> {
+        match stream.next().await {
+            Err(e) => {
+                let st = format!("{:?}", stream.state());
+                let again = match stream.next().await {
+                    Ok(None) => "Ok(None)".to_string(),
+                    Ok(Some(_)) => "Ok(Some)".to_string(),
+                    Err(e2) => format!("Err({})", e2),
+                };
+                Err(LdapError::AdapterInit(format!("probe: upcall failed ({}); state seen by the adapter: {}; second next(): {}", e, st, again)))
+            }
+            ok => ok,
+        }
     }
     async fn finish(&mut self, stream: &mut Stream) -> LdapResult {
         stream.finish().await
@@ -232,7 +263,7 @@ async fn run_call(mut kit: Kit, call: Call, ab_id: Option<i32>) -> (Kit, Ret) {
                 ldap.with_controls(ctrls);
             }
             if opts {
-                ldap.with_search_options(SearchOptions::new().sizelimit(11).typesonly(true));
+                ldap.with_search_options(SearchOptions::new().sizelimit(11).timelimit(6).typesonly(true));
             }
             let adapters: Vec<Box<dyn Adapter<'static, String, Vec<String>>>> = match chain {
                 Chain::Direct => vec![],
@@ -242,6 +273,10 @@ async fn run_call(mut kit: Kit, call: Call, ab_id: Option<i32>) -> (Kit, Ret) {
                     vec![Box::new(EntriesOnly::new()), Box::new(PagedResults::<String, Vec<String>>::new(p))]
                 }
                 Chain::FailAfter(n) => vec![Box::new(FailAfter { left: n })],
+                Chain::PagedEntries(p) => {
+                    vec![Box::new(PagedResults::<String, Vec<String>>::new(p)), Box::new(EntriesOnly::new())]
+                }
+                Chain::Probe => vec![Box::new(Probe)],
             };
             match ldap
                 .streaming_search_with(adapters, &marker, Scope::OneLevel, "(cn=x)", vec!["cn".to_string(), "sn".to_string()])
@@ -268,6 +303,7 @@ async fn run_call(mut kit: Kit, call: Call, ab_id: Option<i32>) -> (Kit, Ret) {
             let adapters: Vec<Box<dyn Adapter<'static, String, Vec<String>>>> = match chain {
                 Chain::EntriesPaged(p) => vec![Box::new(EntriesOnly::new()), Box::new(PagedResults::<String, Vec<String>>::new(p))],
                 Chain::Paged(p) => vec![Box::new(PagedResults::<String, Vec<String>>::new(p))],
+                Chain::PagedEntries(p) => vec![Box::new(PagedResults::<String, Vec<String>>::new(p)), Box::new(EntriesOnly::new())],
                 _ => vec![],
             };
             match ldap.streaming_search_with(adapters, &marker, Scope::OneLevel, "(cn=x)", vec!["cn".to_string(), "sn".to_string()]).await {
@@ -397,6 +433,26 @@ pub fn paging_value(size: i64, cookie: &[u8]) -> Vec<u8> {
     ber::encode(&Tlv::seq(vec![Tlv::int(size), Tlv::octets(cookie.to_vec())]))
 }
 
+/// which entries page number `served` (0-based) of a paged search holds, and whether more follow
+pub fn page_slice(plan: &Plan, size: usize, served: usize) -> (usize, usize, bool) {
+    let (lo, hi) = match plan.cookie {
+        CookieStyle::EmptyFirst => {
+            if served == 0 {
+                (0, 0)
+            } else {
+                (((served - 1) * size).min(plan.total), (served * size).min(plan.total))
+            }
+        }
+        _ => ((served * size).min(plan.total), ((served + 1) * size).min(plan.total)),
+    };
+    let more = hi < plan.total || (matches!(plan.cookie, CookieStyle::EmptyFirst) && served == 0 && plan.total > 0);
+    (lo, hi, more)
+}
+
+pub fn page_ref_label(marker: &str, served: usize) -> String {
+    format!("ldap://{}/p{}", marker, served)
+}
+
 fn parse_paging(v: &[u8]) -> Option<(i64, Vec<u8>)> {
     let t = ber::decode_all(v).ok()?;
     let c = t.as_cons()?;
@@ -428,6 +484,8 @@ pub struct Client {
     pub last_poll: u64,
     /// reference model of the stream (C10)
     pub sm: StreamModel,
+    /// how many bytes the client side had written when the current call started
+    pub out_mark: usize,
 }
 
 #[derive(Clone, Debug, Default)]
@@ -496,6 +554,7 @@ impl World {
                 has_stream: false,
                 last_poll: 0,
                 sm: StreamModel { state: "None", ..Default::default() },
+                out_mark: 0,
             })
             .collect();
         let mut server = Server::default();
@@ -752,9 +811,10 @@ impl World {
             };
         }
         self.clients[i].cur = Some((call.clone(), self.now));
+        self.clients[i].out_mark = self.io.lock().unwrap().out.len();
         let before = self.probe.as_ref().map(|p| p.verif_msgmap());
         let allocates = !matches!(call, Call::StartOwnPaging { .. }) && matches!(call, Call::Single { .. } | Call::Search { .. } | Call::Abandon(_) | Call::Unbind)
-            || matches!(&call, Call::Start { own_paging, chain, .. } if !(*own_paging && matches!(chain, Chain::Paged(_) | Chain::EntriesPaged(_))));
+            || matches!(&call, Call::Start { own_paging, chain, .. } if !(*own_paging && matches!(chain, Chain::Paged(_) | Chain::EntriesPaged(_) | Chain::PagedEntries(_))));
         self.clients[i].task = Some(Task::new(run_call(kit, call.clone(), ab_id)));
         self.poll_client(i);
         if self.scn.oracles.ids && allocates {
@@ -899,6 +959,7 @@ impl World {
         let r = self.server.reqs[idx].clone();
         let plan = self.plan(&r.marker);
         let res_ctl = |marker: &str| Ctl { oid: RES_CTL_OID.as_bytes().to_vec(), crit: None, val: Some(marker.as_bytes().to_vec()) };
+        let extra_ctl = |marker: &str| Ctl { oid: EXTRA_CTL_OID.as_bytes().to_vec(), crit: Some(true), val: Some(format!("{}/x", marker).into_bytes()) };
         let mut res = Res::new(plan.rc as i64, &format!("id={}", id), &r.marker);
         if plan.referral {
             res.referral = Some(vec![format!("ldap://ref/{}", r.marker).into_bytes()]);
@@ -908,6 +969,9 @@ impl World {
                 let mut ctrls = vec![];
                 if plan.res_ctrls {
                     ctrls.push(res_ctl(&r.marker));
+                }
+                if plan.extra_res_ctrl {
+                    ctrls.push(extra_ctl(&r.marker));
                 }
                 let m = Msg { id, op: single_resp(tag, res, &r.marker), controls: if ctrls.is_empty() { None } else { Some(ctrls) } };
                 self.push_frame(&m);
@@ -937,8 +1001,16 @@ impl World {
                     if plan.res_ctrls {
                         ctrls.push(res_ctl(&r.marker));
                     }
+                    if plan.extra_res_ctrl {
+                        ctrls.push(extra_ctl(&r.marker));
+                    }
                     if let Some(cookie) = &r.done_cookie {
-                        ctrls.push(Ctl { oid: PAGED_OID.as_bytes().to_vec(), crit: None, val: Some(paging_value(0, cookie)) });
+                        let pc = Ctl { oid: PAGED_OID.as_bytes().to_vec(), crit: None, val: Some(paging_value(0, cookie)) };
+                        if plan.extra_res_ctrl {
+                            ctrls.insert(0, pc);
+                        } else {
+                            ctrls.push(pc);
+                        }
                         self.server.last_cookie.insert(r.marker.clone(), cookie.clone());
                         *self.server.pages_served.entry(r.marker.clone()).or_insert(0) += 1;
                         if cookie.is_empty() {
@@ -1092,23 +1164,18 @@ impl World {
                     req.page = Some((size, cookie.clone()));
                     let served = *self.server.pages_served.get(&marker).unwrap_or(&0);
                     let size_u = size.max(0) as usize;
-                    let (lo, hi) = match plan.cookie {
-                        CookieStyle::EmptyFirst => {
-                            if served == 0 {
-                                (0, 0)
-                            } else {
-                                ((served - 1) * size_u, (served * size_u).min(plan.total))
-                            }
-                        }
-                        _ => ((served * size_u).min(plan.total), ((served + 1) * size_u).min(plan.total)),
-                    };
-                    req.items = (lo..hi).map(|j| (ItemKind::E, format!("{}#{}", marker, j))).collect();
-                    let more = hi < plan.total || (matches!(plan.cookie, CookieStyle::EmptyFirst) && served == 0 && plan.total > 0);
+                    let (lo, hi, more) = page_slice(&plan, size_u, served);
+                    req.items = vec![];
+                    if plan.page_refs {
+                        req.items.push((ItemKind::R, page_ref_label(&marker, served)));
+                    }
+                    req.items.extend((lo..hi).map(|j| (ItemKind::E, format!("{}#{}", marker, j))));
                     req.done_cookie = Some(if !more {
                         vec![]
                     } else {
                         match plan.cookie {
                             CookieStyle::Constant => b"C".to_vec(),
+                            CookieStyle::TailLooksEmpty => vec![0xde, served as u8 + 1, 0x04, 0x00],
                             _ => vec![0x00, 0xff, served as u8 + 1],
                         }
                     });
@@ -1185,7 +1252,7 @@ impl World {
 
     fn judge_paged_request(&mut self, m: &Msg, marker: &str, size: i64, cookie: &[u8], served: usize) {
         let want_size = match self.clients.iter().find(|c| c.sm.marker == marker).and_then(|c| c.sm.chain.clone()) {
-            Some(Chain::Paged(p)) | Some(Chain::EntriesPaged(p)) => p as i64,
+            Some(Chain::Paged(p)) | Some(Chain::EntriesPaged(p)) | Some(Chain::PagedEntries(p)) => p as i64,
             _ => size,
         };
         if size != want_size {
@@ -1273,6 +1340,12 @@ impl World {
                             self.judge_res(i, marker, &plan, r, obs, true);
                         } else if !faulted {
                             self.v("stream:search-cancelled", format!("search() returned the synthetic result without a fault: {:?}", r));
+                        } else {
+                            // search() has no early finish: when its stream fails the call fails
+                            self.v(
+                                "term:search-error-swallowed",
+                                format!("client {} search() returned Ok with {} entries and the synthetic result {:?} after the connection failed, instead of an error", i, items.len(), r),
+                            );
                         }
                         self.judge_item_ctrls(i, items, &plan);
                     }
@@ -1293,7 +1366,7 @@ impl World {
                 Ret::Started => {
                     self.clients[i].sm.state = "Active";
                     self.clients[i].stream_closed = false;
-                    if *own_paging && matches!(chain, Chain::Paged(_) | Chain::EntriesPaged(_)) {
+                    if *own_paging && matches!(chain, Chain::Paged(_) | Chain::EntriesPaged(_) | Chain::PagedEntries(_)) {
                         self.v("paged:own-control-accepted", "a caller-supplied paging control was accepted by the PagedResults adapter".to_string());
                     }
                     if obs.stream_state.as_deref() != Some("Active") {
@@ -1350,6 +1423,10 @@ impl World {
     }
 
     fn judge_res(&mut self, i: usize, marker: &str, plan: &Plan, r: &RRes, obs: &Obs, is_search: bool) {
+        self.judge_res_x(i, marker, plan, r, obs, is_search, &[])
+    }
+
+    fn judge_res_x(&mut self, i: usize, marker: &str, plan: &Plan, r: &RRes, obs: &Obs, is_search: bool, extra_refs: &[String]) {
         if r.text != marker {
             self.v("route:foreign-response", format!("client {} asked {} but was handed the response for {:?} ({:?})", i, marker, r.text, r));
             return;
@@ -1378,14 +1455,18 @@ impl World {
         if plan.referral {
             want_refs.push(format!("ldap://ref/{}", marker));
         }
+        want_refs.extend(extra_refs.iter().cloned());
         let mut got = r.refs.clone();
         got.sort();
         want_refs.sort();
         if got != want_refs {
             self.v("result:refs", format!("client {} ({}): referrals {:?} != expected {:?}", i, marker, r.refs, want_refs));
         }
-        let want_ctrls: Vec<(String, Option<Vec<u8>>)> =
+        let mut want_ctrls: Vec<(String, Option<Vec<u8>>)> =
             if plan.res_ctrls { vec![(RES_CTL_OID.to_string(), Some(marker.as_bytes().to_vec()))] } else { vec![] };
+        if plan.extra_res_ctrl {
+            want_ctrls.push((EXTRA_CTL_OID.to_string(), Some(format!("{}/x", marker).into_bytes())));
+        }
         let got_ctrls: Vec<(String, Option<Vec<u8>>)> = r.ctrls.iter().map(|c| (c.oid.clone(), c.val.clone())).collect();
         if got_ctrls != want_ctrls {
             self.v("result:ctrls", format!("client {} ({}): result controls {:?} != expected {:?}", i, marker, got_ctrls, want_ctrls));
@@ -1409,7 +1490,22 @@ impl World {
         let sm = &self.clients[i].sm;
         let plan = self.plan(&sm.marker);
         match sm.chain {
-            Some(Chain::Paged(_)) | Some(Chain::EntriesPaged(_)) => (0..plan.total).map(|j| (ItemKind::E, format!("{}#{}", sm.marker, j))).collect(),
+            Some(Chain::Paged(p)) | Some(Chain::EntriesPaged(p)) | Some(Chain::PagedEntries(p)) => {
+                let mut out = vec![];
+                let mut served = 0usize;
+                loop {
+                    let (lo, hi, more) = page_slice(&plan, p.max(0) as usize, served);
+                    if plan.page_refs {
+                        out.push((ItemKind::R, page_ref_label(&sm.marker, served)));
+                    }
+                    out.extend((lo..hi).map(|j| (ItemKind::E, format!("{}#{}", sm.marker, j))));
+                    served += 1;
+                    if !more || served > 64 {
+                        break;
+                    }
+                }
+                out
+            }
             _ => plan
                 .items
                 .iter()
@@ -1431,7 +1527,7 @@ impl World {
         let script = self.stream_script(i);
         let sm = self.clients[i].sm.clone();
         let plan = self.plan(&sm.marker);
-        let entries_only = matches!(sm.chain, Some(Chain::EntriesOnly) | Some(Chain::EntriesPaged(_)));
+        let entries_only = matches!(sm.chain, Some(Chain::EntriesOnly) | Some(Chain::EntriesPaged(_)) | Some(Chain::PagedEntries(_)));
         match &obs.ret {
             Ret::Item(got) => {
                 if sm.state != "Active" {
@@ -1517,6 +1613,14 @@ impl World {
                     // already reported by poll_client
                 } else if k == "AdapterInit" && matches!(sm.chain, Some(Chain::FailAfter(n)) if sm.pos >= n) {
                     // the user-defined adapter's own failure, exactly when the model expects it
+                } else if k == "AdapterInit" && matches!(sm.chain, Some(Chain::Probe)) && m.contains("probe: upcall failed") {
+                    // what the adapter saw on the stream after the failed call up the chain
+                    if !m.contains("state seen by the adapter: Error; second next(): Ok(None)") {
+                        self.v("stream:state-inside-adapter", format!("after a failed next() up the chain the adapter observed: {}", m));
+                    }
+                    if !faulted && !self.abandoned_marker(&sm.marker) {
+                        self.v("call:unexpected-error:probe", format!("client {} next() failed without any fault: {}", i, m));
+                    }
                 } else if !faulted && !self.abandoned_marker(&sm.marker) {
                     self.v(&format!("call:unexpected-error:{}", k), format!("client {} next() failed without any fault: {}", i, m));
                 }
@@ -1544,8 +1648,8 @@ impl World {
                     }
                 } else if sm.complete && !sm.failed {
                     // read to the end: the server's final result with its controls
-                    let entries_only = matches!(sm.chain, Some(Chain::EntriesOnly) | Some(Chain::EntriesPaged(_)));
-                    let paged = matches!(sm.chain, Some(Chain::Paged(_)) | Some(Chain::EntriesPaged(_)));
+                    let entries_only = matches!(sm.chain, Some(Chain::EntriesOnly) | Some(Chain::EntriesPaged(_)) | Some(Chain::PagedEntries(_)));
+                    let paged = matches!(sm.chain, Some(Chain::Paged(_)) | Some(Chain::EntriesPaged(_)) | Some(Chain::PagedEntries(_)));
                     let marker = sm.marker.clone();
                     if r.text != marker {
                         self.v("stream:finish-result", format!("finish() after a complete read returned {:?}, expected the server's result for {}", r, marker));
@@ -1557,13 +1661,20 @@ impl World {
                         if paged {
                             p2.items.clear();
                         }
-                        self.judge_res(i, &marker, &p2, r, obs, true);
+                        // an EntriesOnly adapter anywhere in the chain merges the reference URIs of
+                        // every page into the final result
+                        let extra: Vec<String> = if paged && entries_only {
+                            self.stream_script(i).into_iter().filter(|x| x.0 == ItemKind::R).map(|x| x.1).collect()
+                        } else {
+                            vec![]
+                        };
+                        self.judge_res_x(i, &marker, &p2, r, obs, true, &extra);
                         if r.ctrls.iter().any(|c| c.oid == PAGED_OID) {
                             self.v("paged:final-control", "final result still carries the paging control".to_string());
                         }
                     }
                 } else if !sm.failed {
-                    if r.rc == 88 && matches!(sm.chain, Some(Chain::EntriesOnly)) && r.refs != sm.refs {
+                    if r.rc == 88 && matches!(sm.chain, Some(Chain::EntriesOnly) | Some(Chain::EntriesPaged(_)) | Some(Chain::PagedEntries(_))) && r.refs != sm.refs {
                         self.v("stream:early-finish-refs", format!("finish() before the end: the EntriesOnly adapter had collected {:?} but the result carries {:?}", sm.refs, r.refs));
                     }
                     if r.rc != 88 {
@@ -1616,7 +1727,7 @@ impl World {
                 return;
             }
         };
-        if !self.server.reqs.iter().any(|r| r.marker == marker) {
+        if !self.request_offered(marker, self.clients[i].out_mark) {
             self.timed_out_unsent.insert(marker.to_string());
         }
         let start = obs.t_start.max(self.clients[i].last_poll);
@@ -1626,6 +1737,20 @@ impl World {
         }
         if matches!(self.scn.clients[i].script.get(0), Some(_)) && obs.call.starts_with("Single") && self.response_routed_before(marker, obs.t_end, false) {
             self.v("timing:timeout-despite-response", format!("client {} {}: returned Timeout although its response had been routed earlier", i, obs.call));
+        }
+    }
+
+    /// Has the driver taken a request carrying `marker` off its queue since the client side had
+    /// written `from` bytes? It has exactly if the request's bytes were presented to the transport
+    /// (accepted, or offered to a write that stalled or failed).
+    fn request_offered(&self, marker: &str, from: usize) -> bool {
+        let io = self.io.lock().unwrap();
+        let mut bytes: Vec<u8> = io.out[from.min(io.out.len())..].to_vec();
+        bytes.extend_from_slice(&io.offered);
+        drop(io);
+        match msg::split_frames(&bytes) {
+            Ok((frames, _)) => frames.iter().any(|f| Msg::from_tlv(f, &mut vec![]).map_or(false, |m| marker_of(&m.op) == marker)),
+            Err(_) => self.server.reqs.iter().any(|r| r.marker == marker),
         }
     }
 
@@ -1655,6 +1780,7 @@ impl World {
             && self.driver.as_ref().map_or(true, |d| !d.woken())
             && io.avail.is_empty()
             && io.staged.is_empty()
+            && io.write_waker.is_none()
             && self.clients.iter().all(|c| !c.has_stream || c.stream_closed)
     }
 
@@ -1808,6 +1934,9 @@ impl World {
                 c.sm.state,
                 if c.task.is_some() && self.cur_timeout(c).is_some() { c.last_poll } else { 0 }
             );
+            if c.task.is_some() {
+                let _ = write!(s, "om{}|", c.out_mark);
+            }
             for o in &c.log {
                 let _ = write!(s, "{:?};", o);
             }
@@ -1854,7 +1983,7 @@ impl World {
             self.viol.len(),
             self.injected
         );
-        let _ = write!(s, "RT{:?}", self.routed);
+        let _ = write!(s, "RT{:?}U{:?}", self.routed, self.timed_out_unsent);
         s
     }
 
@@ -1879,6 +2008,8 @@ pub fn chain_name(c: &Option<Chain>) -> String {
         Some(Chain::Paged(_)) => "paged".into(),
         Some(Chain::EntriesPaged(_)) => "entries+paged".into(),
         Some(Chain::FailAfter(_)) => "failing-custom-adapter".into(),
+        Some(Chain::PagedEntries(_)) => "paged+entries".into(),
+        Some(Chain::Probe) => "probing-custom-adapter".into(),
     }
 }
 
